@@ -54,7 +54,7 @@ def limit_active(root=None):
 class Injector(object):
     """inj = Injector(module, ["load_subs", ...], root=stage);  sites = inj.record(f, *a);  res, fired = inj.inject(faults, f, *a)"""
 
-    TOOL = 4          # a free sys.monitoring tool id (0 debugger, 1 coverage, 2 profiler, 5 optimizer)
+    TOOL = None       # a free sys.monitoring tool id, chosen per run (4 is the harness's own line coverage, common.start_cover)
 
     def __init__(self, module, fn_names, root=None, bound=3):
         self.root = root
@@ -78,8 +78,11 @@ class Injector(object):
     # -- sys.monitoring plumbing ---------------------------------------------------------------------
     def _on(self):
         mon = sys.monitoring
-        if mon.get_tool(self.TOOL) is None:
-            mon.use_tool_id(self.TOOL, "esrverif-inject")
+        free = [t for t in (3, 0, 2, 1) if mon.get_tool(t) is None]
+        if not free:
+            raise RuntimeError("no free sys.monitoring tool id")
+        self.TOOL = free[0]
+        mon.use_tool_id(self.TOOL, "esrverif-inject")
         mon.register_callback(self.TOOL, mon.events.LINE, self._line)
         for c in self.codes:
             mon.set_local_events(self.TOOL, c, mon.events.LINE)
